@@ -131,7 +131,7 @@ def run_tlc(module, cfg=None, workers=None, env=None, simulate=None, depth=None,
     if meta.exists():
         shutil.rmtree(meta)
     meta.mkdir(parents=True)
-    java = ["java", "-XX:+UseParallelGC", f"-Xmx{xmx}"]
+    java = ["java", "-XX:+UseParallelGC", f"-Xmx{xmx}", "-Xss64m"]
     if deque:
         java.append("-Dtlc2.tool.queue.IStateQueue=StateDeque")
     java += ["-cp", TLA_CP, "tlc2.TLC"]
